@@ -1874,6 +1874,8 @@ impl<'a> CompilerState<'a> {
                                                 start,
                                             ));
                                         }
+                                        // The assignment is located where its value is written
+                                        let pos = p.as_span().start();
                                         let expr = self.parse_expr_init_value(p.into_inner())?;
                                         let assign = Expr::BinOp {
                                             lhs: Box::new(Expr::Identifier(
